@@ -1,4 +1,5 @@
 mod borrow;
+mod drops;
 mod exec;
 mod gen;
 mod huge;
@@ -52,6 +53,9 @@ fn main() {
         }
         "zst" => {
             std::process::exit(zst::main(&args[2..]));
+        }
+        "drops" => {
+            std::process::exit(drops::main(&args[2..]));
         }
         "borrow" => {
             std::process::exit(borrow::main(&args[2..]));
